@@ -264,14 +264,16 @@ class _Gen:
 
     def index_expr(self, d):
         r = self.r.random()
-        if r < 0.8:
+        if r < 0.7:
             base = ["id", self.ch(VARS)]
-        elif r < 0.9:
+        elif r < 0.82:
             base = ["call", self.ch(FUNCS), [self.simple() for _ in range(self.ch([0, 1, 2]))]]
+        elif r < 0.91:
+            base = ["cast", self.cast_type(), self.simple()]
         else:
             base = ["paren", self.expr(max(d, 1))]
         e = ["index", base, self.index_items()]
-        if self.p(0.2):
+        while self.p(0.25):
             e = ["index", e, self.index_items()]
         return e
 
@@ -1663,7 +1665,7 @@ def cst_entry(n, src):
 
 
 def _diff(exp, got, path, out, limit=6):
-    if len(out) >= limit:
+    if len(out) >= limit or (isinstance(got, str) and got == "<any>"):
         return
     if isinstance(exp, dict) and isinstance(got, dict):
         for key in exp:
@@ -1933,13 +1935,419 @@ def attribute(case):
     return [cid for cid, pred in KNOWN_CAUSES.items() if pred(case)]
 
 
+# ----------------------------------------------------------------------------- typed AST (mode `ast`)
+# The dump of /verif/harness/src/m_ast.rs: `(Program s e (<stmt>...))`, every node `(Kind s e fields...)`
+# in the order the accessors are called there; `_` = None, `!` = the accessor panicked, strings are
+# `x<hex code points>`.  It is converted to the entry form of the generator and compared with `_diff`;
+# what the dump does not contain (array types and literals, old-style declarations, LetStmt) is `_ANY`.
+
+_ANY = "<any>"
+_AST_KIND = {"IfStmt": "IF_STMT", "WhileStmt": "WHILE_STMT", "ForStmt": "FOR_STMT",
+             "SwitchCaseStmt": "SWITCH_CASE_STMT",
+             "ClassicalDeclarationStatement": "CLASSICAL_DECLARATION_STATEMENT",
+             "IODeclarationStatement": "I_O_DECLARATION_STATEMENT",
+             "QuantumDeclarationStatement": "QUANTUM_DECLARATION_STATEMENT",
+             "AssignmentStmt": "ASSIGNMENT_STMT", "BreakStmt": "BREAK_STMT", "ContinueStmt": "CONTINUE_STMT",
+             "EndStmt": "END_STMT", "Gate": "GATE", "Def": "DEF", "Barrier": "BARRIER",
+             "DelayStmt": "DELAY_STMT", "Reset": "RESET", "Include": "INCLUDE",
+             "PragmaStatement": "PRAGMA_STATEMENT", "AnnotationStatement": "ANNOTATION_STATEMENT",
+             "AliasDeclarationStatement": "ALIAS_DECLARATION_STATEMENT",
+             "OldStyleDeclarationStatement": "OLD_STYLE_DECLARATION_STATEMENT", "LetStmt": "LET_STMT",
+             "VersionString": "VERSION_STRING", "DefCal": "DEF_CAL", "Cal": "CAL",
+             "DefCalGrammar": "DEF_CAL_GRAMMAR", "Measure": "MEASURE", "ExternStmt": "EXTERN_STMT"}
+_AST_EXPR_KIND = {"GateCallExpr": "GATE_CALL_EXPR", "ModifiedGateCallExpr": "MODIFIED_GATE_CALL_EXPR",
+                  "GPhaseCallExpr": "G_PHASE_CALL_EXPR", "MeasureExpression": "MEASURE_EXPRESSION",
+                  "ReturnExpr": "RETURN_EXPR", "BinExpr": "BIN_EXPR", "CallExpr": "CALL_EXPR",
+                  "PrefixExpr": "PREFIX_EXPR", "CastExpression": "CAST_EXPRESSION",
+                  "IndexedIdentifier": "INDEXED_IDENTIFIER", "IndexExpr": "INDEX_EXPR",
+                  "Identifier": "IDENTIFIER", "Literal": "LITERAL", "TimingLiteral": "TIMING_LITERAL",
+                  "ParenExpr": "PAREN_EXPR", "HardwareQubit": "HARDWARE_QUBIT", "RangeExpr": "RANGE_EXPR",
+                  "BlockExprE": "BLOCK_EXPR", "ArrayLiteral": "ARRAY_LITERAL", "ArrayExpr": "ARRAY_EXPR"}
+_AST_BINOP = {"Logic.And": "&&", "Logic.Or": "||", "Arith.Add": "+", "Arith.Mul": "*", "Arith.Sub": "-",
+              "Arith.Div": "/", "Arith.Rem": "%", "Arith.Shl": "<<", "Arith.Shr": ">>", "Arith.BitXor": "^",
+              "Arith.BitOr": "|", "Arith.BitAnd": "&", "Cmp.Eq": "==", "Cmp.Neq": "!=", "Cmp.Lt": "<",
+              "Cmp.Le": "<=", "Cmp.Gt": ">", "Cmp.Ge": ">=", "Concat": "++", "Power": "**", "Assign": "=",
+              "Assign.Add": "+=", "Assign.Sub": "-=", "Assign.Mul": "*=", "Assign.Div": "/=",
+              "Assign.Rem": "%=", "Assign.Shl": "<<=", "Assign.Shr": ">>=", "Assign.BitXor": "^=",
+              "Assign.BitOr": "|=", "Assign.BitAnd": "&="}
+_AST_UNOP = {"Neg": "-", "LogicNot": "!", "Not": "~"}
+_AST_TYPE = {"Angle": "angle", "Bit": "bit", "Bool": "bool", "Complex": "complex", "Duration": "duration",
+             "Float": "float", "Int": "int", "Stretch": "stretch", "UInt": "uint", "Qubit": "qubit"}
+_TIME_UNIT = {"ns": "NanoSecond", "ms": "MilliSecond", "us": "MicroSecond", "µs": "MicroSecond",
+              "s": "Second", "dt": "Cycle", "im": "Imaginary"}
+
+
+def _hx(a):
+    """decode an `x<hex>` string atom; anything else (`_`, `!`, a node) is returned as a marker"""
+    if isinstance(a, str) and a[:1] == "x":
+        return SX.unhex(a[1:])
+    return ["?str", a]
+
+
+def _is_node(x, kind=None):
+    return isinstance(x, list) and x and isinstance(x[0], str) and (kind is None or x[0] == kind)
+
+
+def _ast_name(x):
+    """(Name s e text) / (Identifier ...) / (Param ...) / (HardwareQubit ...) -> text"""
+    if _is_node(x) and len(x) == 4:
+        return _hx(x[3])
+    return ["?name", x if isinstance(x, str) else x[0] if x else None]
+
+
+def _ast_lit(n):
+    """(Literal s e <kind>) -> ["lit", text]; a wrong `value()` adds a third element"""
+    k = n[3] if len(n) > 3 else "?"
+    if not _is_node(k):
+        return ["!lit", k]
+    if k[0] == "IntNumber":
+        t = _hx(k[1])
+        try:
+            want = str(int(t.replace("_", ""), 0)) if not (t[:1] == "0" and t[1:].isdigit()) else str(int(t))
+        except (ValueError, AttributeError):
+            want = "?"
+        return ["lit", t] if k[2] == want else ["lit", t, "value()=%s" % k[2]]
+    if k[0] == "FloatNumber":
+        t = _hx(k[1])
+        v = _hx(k[2])
+        try:
+            ok = float(v) == float(t.replace("_", ""))
+        except (ValueError, TypeError, AttributeError):
+            ok = False
+        return ["lit", t] if ok else ["lit", t, "value()=%s" % (v,)]
+    if k[0] == "BitString":
+        t = _hx(k[1])
+        v = _hx(k[2])
+        return ["lit", t] if isinstance(t, str) and v == t[1:-1] else ["lit", t, "str()=%s" % (v,)]
+    if k[0] == "Bool":
+        return ["lit", "true" if k[1] == "1" else "false"]
+    return ["?lit", k[0]]
+
+
+def ast_type(n):
+    if n == "_":
+        return None
+    if _is_node(n, "ScalarType") and len(n) == 6:
+        name = _AST_TYPE.get(n[3], "?" + str(n[3]))
+        w = None
+        if n[4] != "_":
+            w = ast_expr(n[4][3]) if _is_node(n[4], "Designator") and len(n[4]) == 4 else ["?designator"]
+        if n[5] != "_":
+            inner = ast_type(n[5])
+            w = inner if w is None else ["?both", w, inner]
+        return ["qubit", w] if name == "qubit" else ["type", name, w]
+    if _is_node(n, "ArrayRefType"):
+        return ["array", _ANY, _ANY]
+    return ["?type", n if isinstance(n, str) else n[0]]
+
+
+def _ast_exprlist(n):
+    """(ExpressionList s e (e...)) / (QubitList s e (op...)) / (ArgList s e <ExpressionList|_>) -> list"""
+    if n == "_":
+        return None
+    if _is_node(n, "ArgList"):
+        r = _ast_exprlist(n[3])
+        return [] if r is None else r
+    if _is_node(n) and n[0] in ("ExpressionList", "QubitList") and len(n) == 4:
+        return [ast_expr(x) for x in n[3]]
+    return [["?list", n if isinstance(n, str) else n[0]]]
+
+
+def _ast_index_items(op):
+    if _is_node(op, "IndexOperator") and len(op) == 4:
+        k = op[3]
+        if _is_node(k, "SetExpression"):
+            return [ast_expr(k)]
+        if _is_node(k, "ExpressionList"):
+            return _ast_exprlist(k)
+    return [["?index", op if isinstance(op, str) else op[0]]]
+
+
+def ast_expr(n):
+    if n == "_":
+        return None
+    if not _is_node(n):
+        return ["!", n]
+    k = n[0]
+    f = n[3:]
+    if k == "BinExpr" and len(f) == 3:
+        return ["bin", _AST_BINOP.get(f[0], "?" + str(f[0])), ast_expr(f[1]), ast_expr(f[2])]
+    if k == "PrefixExpr" and len(f) == 2:
+        return ["pre", _AST_UNOP.get(f[0], "?" + str(f[0])), ast_expr(f[1])]
+    if k == "ParenExpr" and len(f) == 1:
+        return ["paren", ast_expr(f[0])]
+    if k == "Literal":
+        return _ast_lit(n)
+    if k == "TimingLiteral" and len(f) == 3:
+        unit = _hx(f[1])
+        lit = ast_expr(f[2])
+        if isinstance(unit, str) and lit and lit[0] == "lit" and len(lit) == 2:
+            out = ["lit", lit[1] + unit]
+            if _TIME_UNIT.get(unit) != f[0]:
+                out.append("time_unit()=%s" % f[0])
+            return out
+        return ["?timing", unit, lit]
+    if k == "Identifier":
+        return ["id", _ast_name(n)]
+    if k == "HardwareQubit":
+        return ["hw", _ast_name(n)]
+    if k == "RangeExpr" and len(f) == 3:
+        return ["range", ast_expr(f[0]), ast_expr(f[1]), ast_expr(f[2])]
+    if k == "IndexExpr" and len(f) == 2:
+        return ["index", ast_expr(f[0]), _ast_index_items(f[1])]
+    if k == "IndexedIdentifier" and len(f) == 2:
+        e = ast_expr(f[0])
+        for op in f[1]:
+            e = ["index", e, _ast_index_items(op)]
+        return e
+    if k == "MeasureExpression" and len(f) == 1:
+        return ["measure", ast_expr(f[0])]
+    if k == "CastExpression" and len(f) == 2:
+        return ["cast", ast_type(f[0]), ast_expr(f[1])]
+    if k == "CallExpr" and len(f) == 2:
+        return ["call", _ast_name(f[1]) if f[1] != "_" else None, _ast_exprlist(f[0])]
+    if k == "SetExpression" and len(f) == 1:
+        return ["set", _ast_exprlist(f[0])]
+    if k == "ArrayLiteral":
+        return ["arraylit", _ANY]
+    return ["?" + k]
+
+
+def _ast_gate_call(n):
+    k = n[0]
+    f = n[3:]
+    if k == "GateCallExpr" and len(f) == 3:
+        return {"modifiers": [], "name": _ast_name(f[2]) if f[2] != "_" else None,
+                "args": _ast_exprlist(f[1]), "qubits": _ast_exprlist(f[0]) or []}
+    if k == "GPhaseCallExpr" and len(f) == 1:
+        return {"modifiers": [], "name": "gphase", "args": [_strip_paren(ast_expr(f[0]))], "qubits": []}
+    if k == "ModifiedGateCallExpr" and len(f) == 3:
+        mods = []
+        for m in f[0]:
+            tag = {"InvModifier": "inv", "PowModifier": "pow", "CtrlModifier": "ctrl",
+                   "NegCtrlModifier": "negctrl"}.get(m[0], "?" + m[0])
+            if tag == "inv":
+                mods.append(["inv"])
+            else:
+                arg = m[3] if len(m) > 3 else "_"
+                mods.append([tag, None if arg == "_" else _strip_paren(ast_expr(arg))])
+        if f[1] != "_" and f[2] == "_":
+            d = _ast_gate_call(f[1])
+        elif f[2] != "_" and f[1] == "_":
+            d = _ast_gate_call(f[2])
+        else:
+            d = {"?": "gate_call_expr and g_phase_call_expr: %s %s" % (f[1] != "_", f[2] != "_")}
+        d["modifiers"] = mods
+        return d
+    return {"?": k}
+
+
+def _ast_block(n, src):
+    """(BlockExpr s e (stmt...)) -> entries"""
+    if _is_node(n, "BlockExpr") and len(n) == 4:
+        return [ast_entry(x, src) for x in n[3]]
+    return [{"?": n if isinstance(n, str) else n[0]}]
+
+
+def _ast_bos(n, src):
+    """(BosBlock <BlockExpr>) / (BosStmt <stmt>) / `!` / `_` -> (entries|None, is_block)"""
+    if n == "_":
+        return None, False
+    if _is_node(n, "BosBlock") and len(n) == 2:
+        return _ast_block(n[1], src), True
+    if _is_node(n, "BosStmt") and len(n) == 2:
+        return [ast_entry(n[1], src)], False
+    return [{"!": n if isinstance(n, str) else n[0]}], False
+
+
+def _ast_opt_name(x):
+    return None if x == "_" else _ast_name(x)
+
+
+def ast_entry(n, src):
+    if not _is_node(n) or len(n) < 3:
+        return {"kind": "?", "text": None, "ast": {"?": _short(n)}}
+    k = n[0]
+    f = n[3:]
+    text = src[int(n[1]):int(n[2])].decode("utf-8", "replace")
+    kind = _AST_KIND.get(k, "?" + k)
+    ast = {"?ast": k}
+    if k == "ExprStmt" and len(f) == 1:
+        inner = f[0]
+        ik = inner[0] if _is_node(inner) else str(inner)
+        kind = "EXPR_STMT(%s)" % _AST_EXPR_KIND.get(ik, "?" + ik)
+        if ik in ("GateCallExpr", "ModifiedGateCallExpr", "GPhaseCallExpr"):
+            ast = _ast_gate_call(inner)
+        elif ik == "MeasureExpression":
+            ast = {"target": None, "operand": ast_expr(inner[3]) if len(inner) == 4 else ["?"]}
+        elif ik == "ReturnExpr":
+            ast = {"value": ast_expr(inner[3]) if len(inner) == 4 else ["?"]}
+        else:
+            e = ast_expr(inner)
+            if e and e[0] == "bin" and e[1] in COMPOUND:
+                ast = {"lhs": e[2], "op": e[1], "rhs": e[3]}
+            else:
+                ast = {"expr": e}
+    elif k == "ClassicalDeclarationStatement" and len(f) == 5:
+        if f[0] == "1":
+            ty = ["array", _ANY, _ANY] if f[1] == "_" else ["?array+scalar"]
+        else:
+            ty = ast_type(f[1])
+        ast = {"const": f[2] == "1", "type": ty, "name": _ast_opt_name(f[3]), "init": ast_expr(f[4])}
+    elif k == "IODeclarationStatement" and len(f) == 4:
+        ty = ["array", _ANY, _ANY] if f[0] == "1" else ast_type(f[1])
+        ast = {"io": "input" if f[3] == "1" else "output", "type": ty, "name": _ast_opt_name(f[2])}
+    elif k == "QuantumDeclarationStatement" and len(f) == 3:
+        qt = f[2]
+        if _is_node(qt, "QubitType") and len(qt) == 4:
+            w = None if qt[3] == "_" else (ast_expr(qt[3][3]) if len(qt[3]) == 4 else ["?"])
+            ty = ["qubit", w]
+        else:
+            ty = ["?qubit_type", qt]
+        ast = {"type": ty, "name": _ast_opt_name(f[0]) if f[1] == "_" else ["?hardware", _ast_name(f[1])]}
+    elif k == "AssignmentStmt" and len(f) == 3:
+        # the protocol of `assignment_stmt_to_asg_stmt`: `identifier()` decides; only if it is None the
+        # LHS is `indexed_identifier()`.  (For `a = b[0];` `indexed_identifier()` returns the RHS, which
+        # the pass never looks at; for `a[0] = b;` `identifier()` returns the RHS `b`: a real mismatch.)
+        lhs = ast_expr(f[0]) if f[0] != "_" else ast_expr(f[2])
+        ast = {"lhs": lhs, "op": "=", "rhs": ast_expr(f[1])}
+    elif k == "AliasDeclarationStatement" and len(f) == 2:
+        ast = {"name": _ast_opt_name(f[0]), "value": ast_expr(f[1])}
+    elif k in ("BreakStmt", "ContinueStmt", "EndStmt"):
+        ast = {}
+    elif k in ("OldStyleDeclarationStatement", "LetStmt"):
+        ast = _ANY
+    elif k == "Reset" and len(f) == 1:
+        ast = {"operands": [ast_expr(f[0])] if f[0] != "_" else []}
+    elif k == "Barrier" and len(f) == 1:
+        ast = {"operands": _ast_exprlist(f[0]) or []}
+    elif k == "DelayStmt" and len(f) == 2:
+        d = f[1]
+        ast = {"duration": ast_expr(d[3]) if _is_node(d, "Designator") and len(d) == 4 else ["?designator"],
+               "operands": _ast_exprlist(f[0]) or []}
+    elif k == "Include" and len(f) == 1:
+        ast = {"path": _hx(f[0][3]) if _is_node(f[0], "FilePath") and len(f[0]) == 4 else ["?file"]}
+    elif k == "PragmaStatement" and len(f) == 1:
+        body = _hx(f[0])
+        head = "#pragma" if text.startswith("#") else "pragma"
+        ast = {"text": head + body if isinstance(body, str) else body}
+    elif k == "AnnotationStatement" and len(f) == 1:
+        ast = {"text": _hx(f[0])}
+    elif k == "IfStmt" and len(f) == 3:
+        then, tb = _ast_bos(f[1], src)
+        els, eb = _ast_bos(f[2], src)
+        ast = {"cond": ast_expr(f[0]), "then": then, "else": els, "then_block": tb, "else_block": eb}
+    elif k == "WhileStmt" and len(f) == 2:
+        body, bb = _ast_bos(f[1], src)
+        ast = {"cond": ast_expr(f[0]), "body": body, "body_block": bb}
+    elif k == "ForStmt" and len(f) == 4:
+        it = f[2]
+        iterable = ["?iterable"]
+        if _is_node(it, "ForIterable") and len(it) == 6:
+            s_, r_, e_ = it[3], it[4], it[5]
+            if s_ != "_" and r_ == "_" and e_ == "_":
+                iterable = ast_expr(s_)
+            elif s_ == "_" and r_ != "_":
+                # a RangeExpr is an Expr as well: `for_iterable_expr()` returns the same node
+                iterable = ast_expr(r_) if e_ == "_" or e_ == r_ else ["?range+expr", ast_expr(r_), ast_expr(e_)]
+            elif s_ == "_" and r_ == "_" and e_ != "_":
+                iterable = ast_expr(e_)
+        body, bb = _ast_bos(f[3], src)
+        ast = {"type": ast_type(f[1]), "var": _ast_opt_name(f[0]), "iterable": iterable, "body": body,
+               "body_block": bb}
+    elif k == "SwitchCaseStmt" and len(f) == 3:
+        cases = []
+        for c in f[1]:
+            if _is_node(c, "CaseExpr") and len(c) == 5:
+                cases.append({"values": _ast_exprlist(c[3]), "body": None if c[4] == "_" else _ast_block(c[4], src)})
+            else:
+                cases.append({"?": _short(c)})
+        ast = {"target": ast_expr(f[0]), "cases": cases, "default": None if f[2] == "_" else _ast_block(f[2], src)}
+    elif k == "Gate" and len(f) == 4:
+        def plist(p):
+            if p == "_":
+                return None
+            if _is_node(p, "ParamList") and len(p) == 4:
+                return [_ast_name(x) for x in p[3]]
+            return ["?paramlist"]
+        ast = {"name": _ast_opt_name(f[0]), "params": plist(f[1]), "qubits": plist(f[2]),
+               "body": None if f[3] == "_" else _ast_block(f[3], src)}
+    elif k == "Def" and len(f) == 4:
+        ps = ["?params"]
+        if _is_node(f[1], "TypedParamList") and len(f[1]) == 4:
+            ps = []
+            for p in f[1][3]:
+                if _is_node(p, "TypedParam") and len(p) == 6 and p[4] == "0":
+                    ps.append({"type": ast_type(p[3]), "name": _ast_opt_name(p[5])})
+                else:
+                    ps.append({"?": _short(p)})
+        ret = None
+        if f[3] != "_":
+            ret = ast_type(f[3][3]) if _is_node(f[3], "ReturnSignature") and len(f[3]) == 4 else ["?ret"]
+        ast = {"name": _ast_opt_name(f[0]), "params": ps, "ret": ret,
+               "body": None if f[2] == "_" else _ast_block(f[2], src)}
+    return {"kind": kind, "text": text, "ast": ast}
+
+
+def match_ast(case, ast_line):
+    """[] iff the typed AST printed by `oq3-run ast` for `case["text"]` has exactly the expected
+    statements with every constituent in the expected role (C05: condition / then / else, loop variable /
+    type / iterable / body, gate name / params / qubits / body, def signature, declared type / name /
+    initializer, range start / step / stop, modifier order, argument and operand order, index operator
+    nesting, operator kinds with lhs / rhs, literal values and time units)"""
+    line = ast_line.rstrip("\n")
+    if not line.startswith("(Program "):
+        return ["no AST: " + line[:200]]
+    root = SX.parse(line)
+    src = case["text"].encode("utf-8")
+    if len(root) != 4 or not isinstance(root[3], list):
+        return ["malformed dump"]
+    out = []
+    if (int(root[1]), int(root[2])) != (0, len(src)):
+        out.append("Program range %s-%s, text has %d bytes" % (root[1], root[2], len(src)))
+    got = [ast_entry(x, src) for x in root[3]]
+    exp = case["stmts"]
+    if [e["kind"] for e in exp] != [g["kind"] for g in got]:
+        out.append("top-level kinds: expected %s, found %s" % (_short([e["kind"] for e in exp]),
+                                                                 _short([g["kind"] for g in got])))
+        return out
+    _diff(exp, got, "stmts", out)
+    return out
+
+
+def _ifs(case):
+    return [e["ast"] for e in _all_entries(case) if e["kind"] == "IF_STMT"]
+
+
+KNOWN_CAUSES_AST = dict(KNOWN_CAUSES)
+KNOWN_CAUSES_AST.update({
+    # F07: IfStmt::then_branch_stmt / else_branch_stmt are both `support::child` (the first Stmt child),
+    # then_branch_block is "the first BlockExpr child"
+    "F07_if_then_stmt_else_block": lambda c: any(
+        (not a["then_block"]) and a["else"] is not None and a["else_block"] for a in _ifs(c)),
+    "F07_if_then_stmt_else_stmt": lambda c: any(
+        (not a["then_block"]) and a["else"] is not None and not a["else_block"] for a in _ifs(c)),
+    "F07_if_then_stmt_no_else": lambda c: any((not a["then_block"]) and a["else"] is None for a in _ifs(c)),
+    # AssignmentStmt::identifier() is `support::child`: the first IDENTIFIER child, i.e. the RHS of
+    # `a[0] = b;` -- the semantic pass then assigns to `b`
+    "assign_indexed_lhs_identifier_rhs": lambda c: any(
+        _is_plain_assign(e) and e["ast"]["lhs"][0] == "index" and _is(e["ast"]["rhs"], "id", 2)
+        for e in _all_entries(c)),
+})
+
+
+def attribute_ast(case):
+    return [cid for cid, pred in KNOWN_CAUSES_AST.items() if pred(case)]
+
+
+
 # ----------------------------------------------------------------------------- self-check
 
 def encode_case(text):
     return ".".join("%x" % ord(ch) for ch in text)
 
 
-def run_harness(texts, exe=None, chunk=2000, timeout=600):
+def run_harness(texts, exe=None, chunk=2000, timeout=600, mode="tree"):
     """one output line per text"""
     import subprocess
     from concurrent.futures import ThreadPoolExecutor
@@ -1948,7 +2356,7 @@ def run_harness(texts, exe=None, chunk=2000, timeout=600):
 
     def one(part):
         inp = "\n".join(encode_case(t) for t in part) + "\n"
-        p = subprocess.run([exe, "tree"], input=inp.encode("utf-8"), stdout=subprocess.PIPE,
+        p = subprocess.run([exe, mode], input=inp.encode("utf-8"), stdout=subprocess.PIPE,
                            stderr=subprocess.PIPE, timeout=timeout)
         got = p.stdout.decode("utf-8", "replace").split("\n")
         if got and got[-1] == "":
